@@ -300,6 +300,13 @@ func (mpt *MerklePatriciaTrie) SaveChanges(ctx context.Context, ndb NodeDB, incl
 			zap.Error(err))
 		return err
 	case <-doneC:
+		// the writer is done; when its write failed the error is in errC
+		// already, and select may have picked this case nevertheless
+		select {
+		case err := <-errC:
+			return err
+		default:
+		}
 	}
 	return nil
 }
